@@ -49,11 +49,12 @@ BF2 = L.Record('struct', 'bf2', [L.Member('x', L.CHAR), L.Member('a', L.UINT, 3)
                                  L.Member('c', L.UINT, 9), L.Member('z', L.SHORT)])
 BF3 = L.Record('struct', 'bf3', [L.Member('a', L.INT, 4), L.Member('b', L.LONG, 33), L.Member(None, L.UINT, 5), L.Member('c', L.UINT, 7),
                                  L.Member('d', L.UCHAR, 3)])
+BF4 = L.Record('struct', 'bf4', [L.Member('a', L.LLONG if hasattr(L, 'LLONG') else L.LONG, 40), L.Member('b', L.LONG, 24), L.Member('c', L.LONG, 36), L.Member('d', L.INT)])
 FAM = L.Record('struct', 'fam', [L.Member('n', L.INT), L.Member('h', L.SHORT), L.Member('d', L.Array(L.CHAR, None))])
 FL = L.Record('struct', 'fl', [L.Member('f', L.FLOAT), L.Member('d', L.DOUBLE), L.Member('b', L.BOOL), L.Member('l', L.LONG)])
 SP = L.Record('struct', 'sp', [L.Member('p', L.INTPTR), L.Member('s', L.CHARPTR), L.Member('f', L.FUNCPTR), L.Member('t', L.Array(L.CHAR, 4))])
 GS = L.Record('struct', 'gs', [L.Member('a', L.CHAR), L.Member('c', L.INT)])
-RECORDS = [S1, S2, SS, U, SU, SA, BF, BF2, BF3, FAM, FL, SP, GS]
+RECORDS = [S1, S2, SS, U, SU, SA, BF, BF2, BF3, BF4, FAM, FL, SP, GS]
 
 # value makers: k = position of the value in the initialiser text -> (C text, semantic value)
 #   semantic: ('int', n) | ('sym', name, addend, pointer type) | ('strp', bytes, addend)
@@ -65,6 +66,11 @@ def v_int(k):
 
 def v_small(k):
     return str(1 + k % 7), ('int', 1 + k % 7)
+
+
+def v_neg(k):
+    """negative values: every bit above the low ones is set (wide signed bit-fields)"""
+    return '-%d' % (2 + k % 5), ('int', -(2 + k % 5))
 
 
 def v_gptr(k):
@@ -117,6 +123,7 @@ TYPES = [
     OT('bf', BF, makers=(v_small,), kind='bitfield'),
     OT('bf2', BF2, makers=(v_small,), kind='bitfield'),
     OT('bf3', BF3, makers=(v_small,), kind='bitfield'),
+    OT('bf4', BF4, makers=(v_neg,), kind='bitfield'),
     OT('fam', FAM, strings=(1,), kind='flexible'),
     OT('s2x2', L.Array(S2, 2), kind='struct'),
     OT('s2xN', L.Array(S2, None), kind='struct'),
